@@ -2,10 +2,11 @@
    correspondence check still runs when a proof is broken). *)
 From Coq Require Import List ZArith Bool.
 From Coq Require Import ExtrOcamlBasic.
-From ABT Require Import DS.Ktable.
+From ABT Require Import DS.Ktable Conc.KtableConc.
 Extraction Language OCaml.
 Extraction "../ocaml/extracted/c16.ml"
   Z.add Z.mul Z.opp Z.sub Z.div Z.modulo Z.eqb Z.ltb Z.leb Z.of_nat Z.to_nat Z.compare Z.land
   cfg64 ledger0 world0 wstep wrun env_key_table_size
   ktable_set_unsafe ktable_set ktable_get ktable_alloc_elem ktable_free find_unit
-  ktable_bytes ktelem_bytes KEY_ID_END.
+  ktable_bytes ktelem_bytes KEY_ID_END get_idx
+  KtableConc.step KtableConc.init KtableConc.view.
